@@ -16,6 +16,7 @@ Proj == [objs  |-> arr,
          maxId |-> maxId,
          freed |-> SetToSeq(freed),
          find  |-> [k \in 1..(maxId + 2) |-> FindIdx(k - 1)],
+         ver   |-> [k \in 1..(maxId + 2) |-> Verify(k - 1, "Alpha")],
          byA   |-> [f \in 1..(Len(arr) + 1) |-> ByName("Alpha", f)],
          byB   |-> [f \in 1..(Len(arr) + 1) |-> ByName("Beta_X", f)],
          kwA   |-> KwCount("Alpha"), kwB |-> KwCount("Beta_X")]
